@@ -8,7 +8,7 @@ META = {
             "model, that no querier sees a sample of an appender that had not closed when it was created (NoDirty), that what a querier "
             "sees never changes (Stable), that trimming the per-series append-id ring is safe (CleanupSafe, RingConsistent), and that the "
             "querier sees exactly the samples of the appenders closed before it (Complete, Atomic) except in the narrowly characterised "
-            "situation KF-C05-1, and that reading through Seek agrees with Next except in the situation KF-C05-2. Every transition of the quick model and seeded random walks of a larger one are then forced on the real "
+            "situation KF-C05-1, and that reading through Seek agrees with Next and never shows a hidden sample (KF-C05-2, fixed). Every transition of the quick model and seeded random walks of a larger one are then forced on the real "
             "tsdb.DB: appender goroutines are parked by the verifhook gate after each per-sample critical section of Commit, queriers are "
             "opened exactly where TLC placed them, and the samples each querier returns are compared with the spec's predictions.",
     "note": "Bounds: quick = 2 appenders x 3 samples over 2 series (chunk cut at 2 samples) x 2 readers with rollback, exhaustively, one replayed "
@@ -34,7 +34,6 @@ def run(ctx):
                          constants={"EmitMode": '"state"' if q else '"all"'})
         # the model must expose the H2 shape when the raw property is checked (guards against a vacuous KF disjunct)
         f_h2 = ex.submit(ctx.tlc, "isolation", "Isolation", "MC_h2.cfg", workers=2, timeout=600, allow_violation=True)
-        f_sk = ex.submit(ctx.tlc, "isolation", "Isolation", "MC_seek.cfg", workers=2, timeout=600, allow_violation=True)
         # (R) seeded random walks of the 4-appender model, predicted views after every step
         f_sim = ex.submit(ctx.tlc, "isolation", "Isolation", "SIM.cfg", simulate=(8 if q else 400), depth=45, workers=4,
                           timeout=(200 if q else 1500))
@@ -44,12 +43,10 @@ def run(ctx):
         if not q:
             # (M)+(R) six samples in one series (three chunks, ring growth): one behaviour per distinct state
             futs["ring"] = ex.submit(ctx.tlc, "isolation", "Isolation", "MC_ring.cfg", workers=4, timeout=3000)
-        mc, h2, sk, sim, wm = f_mc.result(), f_h2.result(), f_sk.result(), f_sim.result(), f_wm.result()
+        mc, h2, sim, wm = f_mc.result(), f_h2.result(), f_sim.result(), f_wm.result()
         ring = futs["ring"].result() if futs else None
     if h2.violated != "Complete":
         raise vlib.Infra("MC_h2: expected the raw Complete invariant to fail in the model (KF-C05-1 shape), got %r" % h2.violated)
-    if sk.violated != "SeekNoDirty":
-        raise vlib.Infra("MC_seek: expected the raw SeekNoDirty invariant to fail in the model (KF-C05-2 shape), got %r" % sk.violated)
     ctx.account(mc)
     behs = list(mc.emitted)
     ctx.log("MC_quick: %d generated / %d distinct, %d behaviours (%.0fs)" % (mc.generated, mc.distinct, len(behs), mc.wall))
